@@ -7,7 +7,13 @@
 (*   where its teardown is parked while the other connections go on: "will" - before the first       *)
 (*     step (the will message's publish pipeline blocks), "del" - inside delDB, i.e. between          *)
 (*     delLocal and unsubscribe (the harness' store blocks in delete; only a clean session deletes);  *)
-(*   when the store's delete notifications reach the broker ("watch").                                *)
+(*     "disc" - after the session part of the teardown (session released, filters unsubscribed) and    *)
+(*     before removeClient: Client.close() runs the Disconnect pipeline outside every lock and the      *)
+(*     pipeline blocks (only the connection that owns the id: a superseded one was closed by the         *)
+(*     takeover already);                                                                                *)
+(*   when the store's delete notifications reach the broker ("watch");                                *)
+(*   what happens between an admin delete and the delivery of its notification: nothing ("none"), or   *)
+(*     the still connected owner sends a SUBSCRIBE and its session is stored again ("sub").              *)
 (* `out` carries after every step what the contract says: the owner of the id and its               *)
 (* subscriptions (and the connections an admin delete must have disconnected).                        *)
 (* Before every connect the harness delivers all pending notifications (assumption of MqttSession).   *)
@@ -15,7 +21,8 @@ EXTENDS MqttSession, Json, SequencesExt
 
 CONSTANTS MaxSteps,
           Mode        \* "all": everything; "resume": plain reconnect chains of cleanSession=false connections (no takeover,
-                      \* no gates, no admin delete) - what a device that keeps its session does
+                      \* no gates, no admin delete) - what a device that keeps its session does; "gap": the same chains, but
+                      \* the device comes back while its previous connection's teardown is still parked in the Disconnect pipeline
 VARIABLES out, parked, will, gclean, k, wleft
 
 gvars == <<svars, out, parked, will, gclean, k, wleft>>
@@ -32,7 +39,7 @@ Frozen == UNCHANGED <<ivars, ev>>
 GConnect == \E c \in ConnSet, clean \in BOOLEAN, w \in BOOLEAN :
     /\ \A i \in 1..(Idx(c) - 1) : kst[Conns[i]] # "idle"
     /\ kdel => clean                                     \* after an admin delete only the clean case is determined
-    /\ Mode = "resume" => (~clean /\ ~w /\ kcur = "none")
+    /\ Mode \in {"resume", "gap"} => (~clean /\ ~w /\ kcur = "none")
     /\ KConnect(c, clean, ~clean /\ Resumable)
     /\ will' = [will EXCEPT ![c] = w] /\ gclean' = [gclean EXCEPT ![c] = clean]
     /\ Emit([a |-> "connect", c |-> c, clean |-> clean, will |-> w])
@@ -41,13 +48,15 @@ GConnect == \E c \in ConnSet, clean \in BOOLEAN, w \in BOOLEAN :
 GSub == \E c \in ConnSet, f \in FiltersS :
     /\ KSubscribe(c, f) /\ Emit([a |-> "sub", c |-> c, f |-> f]) /\ UNCHANGED <<parked, will, gclean, wleft>>
 
-GDrop == \E c \in ConnSet, mode \in {"eof", "disc", "poke"}, gate \in {"none", "will", "del"} :
+GDrop == \E c \in ConnSet, mode \in {"eof", "disc", "poke"}, gate \in {"none", "will", "del", "disc"} :
     /\ parked[c] = "none"
     /\ mode = "poke" => kst[c] = "superseded"
     /\ gate = "will" => (will[c] /\ mode # "disc")
     /\ gate = "del" => gclean[c]
+    /\ gate = "disc" => kst[c] = "up"
     /\ gate # "none" => \A x \in ConnSet : parked[x] = "none"        \* one parked teardown at a time
     /\ Mode = "resume" => (gate = "none" /\ mode # "poke")
+    /\ Mode = "gap" => (gate \in {"none", "disc"} /\ mode # "poke")
     /\ KDrop(c)
     /\ parked' = [parked EXCEPT ![c] = gate]
     /\ Emit([a |-> "drop", c |-> c, mode |-> mode, gate |-> gate])
@@ -63,7 +72,8 @@ GWatch == /\ wleft > 0 /\ wleft' = wleft - 1
 
 GAdmin == /\ Mode = "all" /\ kcur # "none" /\ kex /\ ~kdel /\ \A c \in ConnSet : parked[c] = "none"
           /\ KAdminDelete
-          /\ Emit([a |-> "admin"]) /\ UNCHANGED <<parked, will, gclean, wleft>>
+          /\ \E race \in {"none", "sub"}, f \in FiltersS : Emit([a |-> "admin", race |-> race, c |-> kcur, f |-> f])
+          /\ UNCHANGED <<parked, will, gclean, wleft>>
 
 GNext == /\ k < MaxSteps /\ k' = k + 1 /\ Frozen
          /\ (GConnect \/ GSub \/ GDrop \/ GResume \/ GWatch \/ GAdmin)
